@@ -203,6 +203,36 @@ def tsan_cases(ctx):
     return cases
 
 
+def replay(ctx, facts, verdicts):
+    """python3 check.py C10 --replay <file>: re-run the recorded harness line and look for the recorded
+    member in ThreadSanitizer's reports (a data race is schedule dependent: several attempts)."""
+    data = json.loads(open(ctx.replay).read())
+    key, rp = data.get("key", ""), data.get("replay", {})
+    name = key.split(":", 1)[1] if ":" in key else key
+    F = facts["fields"]
+    line = rp.get("input_line")
+    if not line:
+        v = verdicts.get(name)
+        print("# replay %s: no recorded harness input; table verdict now: %s" % (key, "absent/unshared" if v is None else ("disciplined" if v["ok"] else "undisciplined")))
+        if v is not None and not v["ok"]:
+            ctx.violation(key, data.get("what", key), {"table_verdict": v}, no_input=True)
+        return
+    binary = vlib.build_harness("h_race", "tsan")
+    for attempt in range(5):
+        r = run_tsan_case(binary, line)
+        for rep in parse_tsan(r["stderr"]):
+            if rep["kind"] != "data race":
+                continue
+            fields, used = attribute(rep, facts, vlib.REPO)
+            names = {F[f]["cls"] + "::" + F[f]["name"] for f in fields}
+            where = {"%s:%d" % (u[0], u[1]) for u in used if u}
+            if name in names or name in where or not name:
+                print("# replay %s: reproduced at attempt %d" % (key, attempt + 1))
+                ctx.violation(key, data.get("what", key), {"harness": "h_race (tsan build)", "command": r["cmd"], "input_line": line, "tsan_report": rep["text"][:5000]})
+                return
+    print("# replay %s: not reproduced in 5 attempts of: %s" % (key, line))
+
+
 def run(ctx):
     facts, changed = regenerate(ctx)
     F = facts["fields"]
@@ -211,6 +241,13 @@ def run(ctx):
     verdicts, vsource, problems = driver_verdicts(ctx, facts)
     undisciplined = sorted(n for n, v in verdicts.items() if not v["ok"])
     disciplined_shared = sorted(n for n, v in verdicts.items() if v["ok"])
+    if ctx.replay:
+        return replay(ctx, facts, verdicts)
+    if not ctx.quick():
+        bad = vlib.leanchecker(["BFL.Props.C10", "BFL.Gen.RaceTable"])
+        for mod, log in bad:
+            ctx.violation("leanchecker:" + mod, "leanchecker rejects the compiled module %s: %s" % (mod, log[-300:]), {"module": mod, "log": log}, no_input=True)
+        ctx.notes.append("leanchecker re-checked BFL.Props.C10 and BFL.Gen.RaceTable: %s" % ("ok" if not bad else "FAILED"))
     missing = facts["discipline"]["missing_roots"]
     if any(missing.values()):
         problems.append("entry points of the role map not found in the source: %s" % missing)
@@ -276,6 +313,18 @@ def run(ctx):
         ctx.violation("correspondence:translator-vs-lean", p, {"problem": p}, no_input=True)
 
     # ---- evidence
+    hist = {}
+    for r in runs:
+        for tok in r["out"].split()[2:]:
+            k, _, v = tok.partition("=")
+            if k in ("steps", "cmds"):
+                continue
+            if "/" in v:
+                a, b = v.split("/")
+                hist[k + " accepted"] = hist.get(k + " accepted", 0) + int(a)
+                hist[k + " rejected"] = hist.get(k + " rejected", 0) + int(b)
+            elif v.isdigit():
+                hist[k] = hist.get(k, 0) + int(v)
     steps = sum(int(m.group(1)) for r in runs for m in [re.search(r"steps=(\d+)", r["out"])] if m)
     cmds = sum(int(m.group(1)) for r in runs for m in [re.search(r"cmds=(\d+)", r["out"])] if m)
     per_loc = {n: "%d/%d" % (len({c for c, _ in observed.get(n, [])}), len(runs)) for n in undisciplined}
@@ -295,7 +344,7 @@ def run(ctx):
                   "field_kinds": {k: sum(1 for f in F if f["kind"] == k) for k in ("atomic", "plain", "mutex", "condvar", "other")}},
         "verdict_source": vsource,
         "shared_members_disciplined": disciplined_shared, "shared_members_undisciplined": undisciplined,
-        "tsan": {"runs": len(runs), "filter_steps": steps, "commands_issued": cmds, "runs_by_kind": {k: sum(1 for r in runs if (" %s " % k) in r["line"]) for k in KINDS},
+        "tsan": {"runs": len(runs), "filter_steps": steps, "commands_issued": cmds, "command_histogram": hist, "runs_by_kind": {k: sum(1 for r in runs if (" %s " % k) in r["line"]) for k in KINDS},
                  "reports": sum(r["reports"] for r in runs), "undisciplined_observed_in_runs": per_loc,
                  "unpredicted_reports": len(unpredicted), "other_warnings": other_warnings, "runs_timed_out_or_failed": timeouts,
                  "wall_s": round(sum(r["wall"] for r in runs), 2)},
